@@ -11,6 +11,7 @@ import (
 	"os/exec"
 	"path/filepath"
 	"runtime/debug"
+	"sort"
 	"strings"
 	"sync"
 	"time"
@@ -30,13 +31,14 @@ import (
 // the scenario as replay.  The parent always writes the report.
 
 var (
-	flagChild    = flag.String("child", "", "internal: spec file of the scenarios to run in this child process")
-	flagChildOut = flag.String("child-out", "", "internal: results file of the child")
-	flagChildD42 = flag.Bool("child-d42", false, "internal: run the D42 replay in this child process")
-	flagChildPar = flag.Int("child-par", 0, "internal: scenarios in flight")
-	flagChildMem = flag.Int64("child-mem", 0, "internal: bound on the estimated bytes held by the scenarios in flight")
-	flagChildD71 = flag.Bool("child-d71", false, "internal: run the D71 replay (Close() while sending) in this child process")
-	flagChildD70 = flag.Bool("child-d70", false, "internal: run the D70 replay (ApplyConfig while sending) in this child process")
+	flagChild      = flag.String("child", "", "internal: spec file of the scenarios to run in this child process")
+	flagChildOut   = flag.String("child-out", "", "internal: results file of the child")
+	flagChildD42   = flag.Bool("child-d42", false, "internal: run the D42 replay in this child process")
+	flagChildPar   = flag.Int("child-par", 0, "internal: scenarios in flight")
+	flagChildAlone = flag.Bool("child-alone", false, "internal: this child runs one scenario alone (patient hang deadlines)")
+	flagChildMem   = flag.Int64("child-mem", 0, "internal: bound on the estimated bytes held by the scenarios in flight")
+	flagChildD71   = flag.Bool("child-d71", false, "internal: run the D71 replay (Close() while sending) in this child process")
+	flagChildD70   = flag.Bool("child-d70", false, "internal: run the D70 replay (ApplyConfig while sending) in this child process")
 )
 
 type job struct {
@@ -66,6 +68,10 @@ type scenRecord struct {
 	Admitted    bool           `json:"admitted,omitempty"`
 	Log         []logEvent     `json:"log,omitempty"`
 	Addr        string         `json:"addr,omitempty"`
+	// Stuck: the client blocked for ever in this scenario (a call that did not return / process() that did
+	// not stop).  In a batch process this only voids the rest of the batch (the send lock is process-wide:
+	// the culprit may be another scenario); it counts when the scenario shows it alone in a fresh process.
+	Stuck string `json:"stuck,omitempty"`
 
 	pending *pendingReplay // child only: to be replayed on the model at the end of the batch
 }
@@ -80,7 +86,11 @@ type pendingReplay struct {
 	w  *witness
 }
 
-const scenarioWatchdog = 6 * time.Minute
+const scenarioWatchdog = 5 * time.Minute
+
+// voidGrace: after the first scenario of a batch process reported the client stuck, the process goes on for
+// this long (other scenarios that are stuck too get the chance to say so), then gives the batch up.
+const voidGrace = 20 * time.Second
 
 // evaluate runs one scenario and decides everything about it.
 func evaluate(j job, driver string) scenRecord {
@@ -91,20 +101,36 @@ func evaluate(j job, driver string) scenRecord {
 		an *analysis
 	}
 	ch := make(chan res, 1)
+	hung := make(chan string, 1)
 	go func() {
-		o := runScenario(j.Spec)
+		o := runScenarioWatch(j.Spec, hung)
 		f, an := checkSpec(o)
 		ch <- res{o, f, an}
 	}()
+	blocks := func(what string) finding {
+		return finding{"send:blocks-forever:" + crashClass(j.Spec), "the client blocks for ever: " + what + " — accepted packs are never sent and the calling goroutines never come back (a lock that is not released on some path, or a write without deadline)"}
+	}
 	var r res
 	select {
 	case r = <-ch:
+	case what := <-hung:
+		rec.Stuck = what
+		rec.Findings = []finding{blocks(what)}
+		rec.Canon = "stuck|" + j.Spec.Name
+		return rec
 	case <-time.After(scenarioWatchdog):
 		rec.Findings = []finding{{"client:hang:" + crashClass(j.Spec), fmt.Sprintf("the scenario did not finish within %v: a call into the client never returned", scenarioWatchdog)}}
 		rec.Canon = "hang|" + j.Spec.Name
 		return rec
 	}
 	o, an := r.o, r.an
+	if o.Stuck != "" {
+		rec.Stuck = o.Stuck
+		rec.Findings = append([]finding{blocks(o.Stuck)}, r.f...)
+		rec.Canon = "stuck|" + j.Spec.Name
+		rec.Conns, rec.Sends, rec.WallMs = o.Conns, len(o.Sends), o.WallMs
+		return rec
+	}
 	rec.Infra = o.Infra
 	rec.Conns = o.Conns
 	rec.Sends = len(o.Sends)
@@ -222,6 +248,20 @@ func evaluate(j job, driver string) scenRecord {
 	return rec
 }
 
+// shapeOf: the coarse shape of a scenario (for "stop feeding scenarios that block the client for ever")
+func shapeOf(sp scenarioSpec) string {
+	s := sp.Mode
+	if len(sp.Script) > 0 {
+		s += " with faults"
+	} else {
+		s += " without faults"
+	}
+	if sp.Batch {
+		s += ", SendAndClear"
+	}
+	return s
+}
+
 func crashClass(sp scenarioSpec) string {
 	if sp.Senders > 1 {
 		return sp.Mode + ":concurrent-senders"
@@ -284,6 +324,23 @@ func childMain(env *vh.Env) {
 	if par <= 0 {
 		par = 96
 	}
+	if *flagChildAlone {
+		callWatchdog, stopWatchdog = 75*time.Second, 45*time.Second
+	}
+	var voidOnce sync.Once
+	voidBatch := func() {
+		if len(jobs) == 1 {
+			return
+		}
+		voidOnce.Do(func() {
+			go func() {
+				time.Sleep(voidGrace)
+				emit(scenRecord{Event: "void"})
+				out.Sync()
+				os.Exit(0)
+			}()
+		})
+	}
 	sem := make(chan struct{}, par)
 	// memory: the scenarios in flight hold their packs, reference frames and received streams; the sum of
 	// their estimates stays under the budget (a scenario heavier than the whole budget runs alone), and the
@@ -326,6 +383,9 @@ func childMain(env *vh.Env) {
 				fmt.Fprintf(os.Stderr, "%-40s cap=%d faults=%d/%d conns=%d sends=%d recv=%d wall=%dms\n", j.Spec.Name, j.Spec.QueueCap, r.Faults, len(j.Spec.Script), len(r.Conns), r.Sends, r.Received, r.WallMs)
 			}
 			emit(r)
+			if r.Stuck != "" {
+				voidBatch()
+			}
 		}(j)
 	}
 	wg.Wait()
@@ -447,6 +507,7 @@ type childRun struct {
 	inflight []job // started, not finished
 	rest     []job // never started
 	exitErr  string
+	void     bool // the child gave the batch up: a scenario reported the client stuck
 	timedOut bool
 	stderr   string
 }
@@ -498,6 +559,9 @@ func runChildMem(env *vh.Env, jobs []job, par int, mem int64, timeout time.Durat
 	defer cancel()
 	cmd := exec.CommandContext(ctx, exe, "-child", specFile, "-child-out", outFile, "-child-par", fmt.Sprint(par),
 		"-child-mem", fmt.Sprint(mem), "-driver", env.Driver, "-tier", env.Tier, "-seed", fmt.Sprint(env.Seed), "-repo", env.Repo)
+	if len(jobs) == 1 {
+		cmd.Args = append(cmd.Args, "-child-alone")
+	}
 	var errb tailBuffer
 	cmd.Stderr = &errb
 	cmd.Stdout = &errb
@@ -521,7 +585,9 @@ func runChildMem(env *vh.Env, jobs []job, par int, mem int64, timeout time.Durat
 			if json.Unmarshal(sc.Bytes(), &r) != nil {
 				continue // a torn last line
 			}
-			if r.Event == "start" {
+			if r.Event == "void" {
+				cr.void = true
+			} else if r.Event == "start" {
 				started[r.Idx] = true
 			} else if r.Event == "done" {
 				rr := r
@@ -614,6 +680,8 @@ func runIsolated(env *vh.Env, jobs []job, par int) (map[int]*scenRecord, []crash
 		batchTimeout = 45 * time.Minute
 	}
 	pending := jobs
+	hangRounds := 0
+	stuckShapes := map[string]int{}
 	mem := int64(6 << 30)
 	if raceEnabled {
 		mem = 3 << 29 // the race detector's shadow memory multiplies what a scenario holds
@@ -627,6 +695,85 @@ func runIsolated(env *vh.Env, jobs []job, par int) (map[int]*scenRecord, []crash
 		if cr.exitErr == "" && len(cr.inflight) == 0 && len(cr.rest) == 0 {
 			pending = nil
 			break
+		}
+		if cr.void {
+			// A scenario reported the client stuck.  The send lock is process-wide, so everything that ran in that
+			// process after the lock was lost is void and the scenario that noticed may be a victim: the hang is
+			// established by running the stuck scenarios alone, each in a fresh process with patient deadlines.
+			hangRounds++
+			var stuck []job
+			for _, j := range pending {
+				if r, ok := cr.done[j.Idx]; ok && r.Stuck != "" {
+					delete(done, j.Idx)
+					stuck = append(stuck, j)
+				}
+			}
+			// Most of them are victims (they wait for the lock another client lost).  Candidates first: a lock is
+			// lost on an error path, so scenarios with faults; and a process() that did not stop rather than a
+			// sender that waits.  The others go back into the next batch.
+			rank := func(j job) int {
+				k := 0
+				if len(j.Spec.Script) > 0 {
+					k += 2
+				}
+				if strings.HasPrefix(cr.done[j.Idx].Stuck, "process()") {
+					k++
+				}
+				return -k
+			}
+			sort.SliceStable(stuck, func(a, b int) bool { return rank(stuck[a]) < rank(stuck[b]) })
+			alone, back := stuck, []job(nil)
+			if len(alone) > 8 {
+				alone, back = stuck[:8], stuck[8:]
+			}
+			var mu sync.Mutex
+			var wg sync.WaitGroup
+			nConfirmed := 0
+			for _, j := range alone {
+				wg.Add(1)
+				go func(j job) {
+					defer wg.Done()
+					one := runChild(env, []job{j}, 1, 6*time.Minute)
+					mu.Lock()
+					defer mu.Unlock()
+					if r, ok := one.done[j.Idx]; ok {
+						done[j.Idx] = r
+						if r.Stuck != "" {
+							nConfirmed++
+							stuckShapes[shapeOf(j.Spec)]++
+						}
+						return
+					}
+					// died or hung beyond every watchdog when alone
+					kind, sum := "crash", "the process running the client died"
+					if one.timedOut {
+						kind, sum = "hang", "the scenario did not finish within 6 min"
+					}
+					crashes = append(crashes, crash{"client:" + kind + ":" + crashClass(j.Spec),
+						fmt.Sprintf("%s while running scenario %q alone: %s", sum, j.Spec.Name, vh.Clip(crashText(one.stderr), 600)),
+						map[string]interface{}{"spec": j.Spec, "exit": one.exitErr, "output": crashText(one.stderr)}})
+				}(j)
+			}
+			wg.Wait()
+			notes = append(notes, fmt.Sprintf("a batch process was given up: %d scenarios reported the client stuck; %d of them were re-run alone, %d blocked again (reported), the rest of the batch was restarted in a fresh process (round %d)", len(stuck), len(alone), nConfirmed, hangRounds))
+			next := append(append(append([]job(nil), back...), cr.inflight...), cr.rest...)
+			pending = pending[:0:0]
+			skipped := map[string]int{}
+			for _, j := range next {
+				if sh := shapeOf(j.Spec); stuckShapes[sh] >= 2 {
+					skipped[sh]++ // two scenarios of this shape blocked the client for ever: no point in feeding more
+					continue
+				}
+				pending = append(pending, j)
+			}
+			for sh, n := range skipped {
+				notes = append(notes, fmt.Sprintf("%d scenarios of shape %q not run: scenarios of that shape blocked the client for ever %d times (see the send:blocks-forever findings)", n, sh, stuckShapes[sh]))
+			}
+			if hangRounds >= 3 && len(pending) > 0 {
+				notes = append(notes, fmt.Sprintf("%d scenarios not run: batch processes kept getting stuck", len(pending)))
+				pending = nil
+			}
+			continue
 		}
 		if cr.killedByOS() {
 			// out of memory on this machine: the scenarios that did not finish are run again with a quarter
